@@ -286,6 +286,7 @@ func (s *Sim) addNode(ident, brain int, kind FaultKind) *Node {
 	}
 	n.ledger = []*Block{s.genesis}
 	n.pool = map[Hash]*Tx{}
+	n.everHad = map[Hash]bool{}
 	s.nodes = append(s.nodes, n)
 	return n
 }
@@ -369,6 +370,7 @@ func (s *Sim) Run() {
 		}
 		s.now = ev.At
 		s.st.Events++
+		s.st.Probe["ev:"+evNames[ev.Kind]]++
 		s.dispatch(ev)
 		if !s.noDone && s.done() {
 			break
@@ -498,6 +500,7 @@ func (s *Sim) dispatch(ev *Event) {
 		}
 		tx := ev.Tx
 		n.pool[tx.Hash()] = tx
+		n.everHad[tx.Hash()] = true
 		n.call(&Step{Op: OpTx, Tx: tx}, func() { n.d.OnTransaction(tx) })
 	case EvTxArrive:
 		n := s.nodes[ev.Node]
@@ -520,7 +523,7 @@ func (s *Sim) dispatch(ev *Event) {
 	case EvAdv:
 		s.adv.act()
 		if s.adv.active() {
-			s.after(s.sc.LatBase+s.tape.Range(SAdv, 0, 20)*s.sc.LatBase, &Event{Kind: EvAdv})
+			s.after(int64(s.sc.TPB)/40+s.tape.Range(SAdv, 0, 20)*int64(s.sc.TPB)/200, &Event{Kind: EvAdv})
 		}
 	case EvWorkload:
 		s.workload()
@@ -772,6 +775,9 @@ func (s *Sim) workload() {
 	}
 	for _, n := range s.nodes {
 		var d int64
+		if sc.PoorNode > 0 && n.ident == sc.PoorNode-1 && !s.tape.Chance(SWork, 1, 4) {
+			continue
+		}
 		if sc.TxMissing {
 			d = s.tape.Range(SWork, 0, 16) * sc.TxGossipMax / 4
 			if s.tape.Chance(SWork, 1, 8) {
